@@ -49,16 +49,21 @@ func (b *spinBarrier) wait() {
 		atomic.StoreInt32(&b.gate, 1)
 		return
 	}
-	deadline := time.Now().Add(3 * time.Second)
+	began := time.Now()
+	slow := false
 	for i := 0; atomic.LoadInt32(&b.gate) == 0; i++ {
 		runtime.Gosched()
 		if atomic.LoadInt32(&b.aborted) != 0 {
 			return
 		}
-		if i%1024 == 1023 {
+		if slow {
+			time.Sleep(time.Millisecond) // somebody is stuck: waiting for the state detector's verdict, alignment no longer matters
+			continue
+		}
+		if i%1024 == 1023 && time.Since(began) > 2*time.Second {
 			if b.strict {
-				time.Sleep(time.Millisecond) // waiting for a verdict of the state detector, not burning a core
-			} else if time.Now().After(deadline) {
+				slow = true
+			} else {
 				atomic.AddInt32(&b.timeout, 1)
 				return
 			}
